@@ -155,6 +155,16 @@ pub fn check(sc: &Scenario, out: &RunOutput) -> OracleResult {
                             res.violate(P, "sack-bit-missing", t, format!("paced compliant sender: {} does not report held seq {} (bit {})", p.short(), s, i));
                         }
                     }
+                    // a bitmap that ends before a held packet it could name (64 bits reach
+                    // ack_nr + 65) omits that packet just as a zero bit does
+                    if exact && p.ack == cum {
+                        if let Some(s) = delivered.keys().find(|s| {
+                            let d = seq_diff(**s, p.ack);
+                            d >= 2 && d < 66 && (d - 2) as usize >= bits.len()
+                        }) {
+                            res.violate(P, "sack-bit-missing", t, format!("paced compliant sender: {} ends after {} bits and does not report held seq {} (bit {})", p.short(), bits.len(), s, seq_diff(*s, p.ack) - 2));
+                        }
+                    }
                     if delivered.contains_key(&p.ack.wrapping_add(1)) && exact {
                         res.violate(P, "sack-with-next-delivered", t, format!("{}: selective ACK although seq ack+1 was delivered", p.short()));
                     }
